@@ -95,7 +95,7 @@ package x509
 //@   at call hash assert arg0 == sigHash(algo) && same(arg1, signed)
 //@   at call VerifyPKCS1v15 assert !sigIsPSS(algo) && arg1 == sigHash(algo) && same(arg2, digest) && same(arg3, signature)
 //@   at call VerifyPSS assert sigIsPSS(algo) && arg1 == sigHash(algo) && same(arg2, digest) && same(arg3, signature) && arg4 != nil && arg4.SaltLength == -1
-//@   at call dsa.Verify assert same(arg1, digest)
+//@   at call zcrypto/dsa.Verify assert same(arg1, digest)
 //@   at call ecdsa.Verify assert same(arg1, digest)
 //@   at call ed25519.Verify assert same(arg1, digest) && same(arg2, signature)
 //@   modifies ghost.bigEq, ghost.bigStr
@@ -193,27 +193,24 @@ package x509
 // callees are assumed heap-neutral (assume_pure, listed as assumptions). The assertions
 // speak about the function-entry values (old) of the template's algorithm and of the
 // package variable oidSignatureRSAPSS, and about SSA values (hashFunc, the algorithm
-// identifier returned by signingParamsForPublicKey, the digest).
+// identifier returned by signingParamsForPublicKey, the digest). One `at call` clause per call
+// site: several clauses for one call would produce obligations with identical names.
 //@ pred signOptsOK(opts, pss, h) = (pss ==> typeis(opts, *zcrypto_rsa.PSSOptions) && unboxed(opts, *zcrypto_rsa.PSSOptions) != nil && unboxed(opts, *zcrypto_rsa.PSSOptions).SaltLength == -1 && unboxed(opts, *zcrypto_rsa.PSSOptions).Hash == h) && (!pss ==> typeis(opts, crypto.Hash) && unboxed(opts, crypto.Hash) == h)
 
 //@ func CreateCertificate
-//@   at call Signer).Sign assert false
 //@   requires template != nil && parent != nil
 //@   maypanic
 //@   assume_pure marshalPublicKey
 //@   assume_pure subjectBytes
 //@   assume_pure buildExtensions
-//@   at call Signer).Sign assert signOptsOK(arg3, same(signatureAlgorithm.Algorithm, old(oidSignatureRSAPSS)), hashFunc)
-//@   at call Signer).Sign assert old(template.SignatureAlgorithm) != 0 ==> hashFunc == sigHash(old(template.SignatureAlgorithm)) && (same(signatureAlgorithm.Algorithm, old(oidSignatureRSAPSS)) <==> sigIsPSS(old(template.SignatureAlgorithm)))
-//@   at call Signer).Sign assert same(arg2, digest)
+//@   at call Signer).Sign assert (signOptsOK(arg3, same(signatureAlgorithm.Algorithm, old(oidSignatureRSAPSS)), hashFunc)) && (old(template.SignatureAlgorithm) != 0 ==> hashFunc == sigHash(old(template.SignatureAlgorithm)) && (same(signatureAlgorithm.Algorithm, old(oidSignatureRSAPSS)) <==> sigIsPSS(old(template.SignatureAlgorithm)))) && (same(arg2, digest))
 //@   at call hash assert arg0 == hashFunc
 //@   modifies all
 
 //@ func (*Certificate).CreateCRL
 //@   requires c != nil
 //@   maypanic
-//@   at call Signer).Sign assert signOptsOK(arg3, same(signatureAlgorithm.Algorithm, old(oidSignatureRSAPSS)), hashFunc)
-//@   at call Signer).Sign assert same(arg2, digest)
+//@   at call Signer).Sign assert (signOptsOK(arg3, same(signatureAlgorithm.Algorithm, old(oidSignatureRSAPSS)), hashFunc)) && (same(arg2, digest))
 //@   at call hash assert arg0 == hashFunc
 //@   modifies all
 
@@ -224,9 +221,7 @@ package x509
 //@   assume_pure marshalSANs
 //@   assume_pure newRawAttributes
 //@   assume_pure ObjectIdentifier).String
-//@   at call Signer).Sign assert signOptsOK(arg3, same(sigAlgo.Algorithm, old(oidSignatureRSAPSS)), hashFunc)
-//@   at call Signer).Sign assert old(template.SignatureAlgorithm) != 0 ==> hashFunc == sigHash(old(template.SignatureAlgorithm)) && (same(sigAlgo.Algorithm, old(oidSignatureRSAPSS)) <==> sigIsPSS(old(template.SignatureAlgorithm)))
-//@   at call Signer).Sign assert same(arg2, digest)
+//@   at call Signer).Sign assert (signOptsOK(arg3, same(sigAlgo.Algorithm, old(oidSignatureRSAPSS)), hashFunc)) && (old(template.SignatureAlgorithm) != 0 ==> hashFunc == sigHash(old(template.SignatureAlgorithm)) && (same(sigAlgo.Algorithm, old(oidSignatureRSAPSS)) <==> sigIsPSS(old(template.SignatureAlgorithm)))) && (same(arg2, digest))
 //@   at call hash assert arg0 == hashFunc
 //@   modifies all
 
@@ -234,8 +229,6 @@ package x509
 //@   requires priv != nil
 //@   maypanic
 //@   assume_pure subjectBytes
-//@   at call Signer).Sign assert signOptsOK(arg3, same(signatureAlgorithm.Algorithm, old(oidSignatureRSAPSS)), hashFunc)
-//@   at call Signer).Sign assert old(template.SignatureAlgorithm) != 0 ==> hashFunc == sigHash(old(template.SignatureAlgorithm)) && (same(signatureAlgorithm.Algorithm, old(oidSignatureRSAPSS)) <==> sigIsPSS(old(template.SignatureAlgorithm)))
-//@   at call Signer).Sign assert same(arg2, input)
+//@   at call Signer).Sign assert (signOptsOK(arg3, same(signatureAlgorithm.Algorithm, old(oidSignatureRSAPSS)), hashFunc)) && (old(template.SignatureAlgorithm) != 0 ==> hashFunc == sigHash(old(template.SignatureAlgorithm)) && (same(signatureAlgorithm.Algorithm, old(oidSignatureRSAPSS)) <==> sigIsPSS(old(template.SignatureAlgorithm)))) && (same(arg2, input))
 //@   at call Hash).New assert arg0 == hashFunc
 //@   modifies all
